@@ -148,13 +148,31 @@ func VHRestore() {
 	vAssert(vVisitsEq(dr.visitedNodes, c.visits), "after a restore the visit counts are the snapshot's")
 	// (taking a snapshot is itself an operation on the runner: do it on some paths only, so that what
 	// follows is also explored on a runner nobody took a snapshot of)
-	if vChoose("snapshot.after.restore", 2) == 1 {
+	snapAfter := vChoose("snapshot.after.restore", 2) == 1
+	if snapAfter {
 		vAssert(vSnapEq(dr.Snapshot(), c), "a snapshot taken right after a restore equals the restored one")
 	}
 
 	// a second runner restored from the same snapshot
 	dr2 := vSimpleRunner(w)
 	vAssert(dr2.RestoreAt(s) == nil, "a fresh runner accepts the snapshot")
+	// what scripts see of the visit counts from now on (visited / visited_count) is the snapshot's, in both
+	// (on the paths that also took a snapshot: asking is an operation on the runner, too)
+	if snapAfter {
+		for _, name := range []string{"n0", "n1", "n2", "zz"} {
+			want := c.visits[name]
+			if want > 0 && name != "zz" && !w.tracked(name) {
+				continue // a count for a node that is never tracked: no history produces it, no reading imposed
+			}
+			for _, r := range []*DialogueRunner{dr, dr2} {
+				cnt, vis := vScriptVisits(r, name)
+				ci, exact := vExactInt(cnt)
+				vAssert(exact && ci == want, "after a restore visited_count reports the snapshot's count")
+				vAssert(vis == (want > 0), "after a restore visited reports whether the snapshot's count is positive")
+			}
+		}
+		vReach("visit-functions-after-restore")
+	}
 	// step the first runner (arbitrary choice: it must be ignored)
 	var el *DialogueElement
 	panicked = vTry(func() { el, err = dr.Next(vInt("choice.after.restore")) })
